@@ -57,6 +57,7 @@ Proof.
     + unfold ext_del in E. destruct (d_st (doc s)); inversion E; subst; cbn; split; auto; lia.
     + unfold ext_touch in E. destruct (d_st (doc s)); inversion E; subst; cbn; split; auto; lia.
     + unfold legacy_write in E. destruct (d_st (doc s)); inversion E; subst; cbn; split; auto; lia.
+    + unfold foreign_write in E. destruct (d_st (doc s)); [destruct (foreign_ok _ _)| |]; inversion E; subst; cbn; split; auto; lia.
     + inversion E; subst. split; auto; lia.
 Qed.
 
@@ -72,6 +73,7 @@ Proof.
     + unfold ext_del in E. destruct (d_st (doc s)); inversion E; subst; cbn; lia.
     + unfold ext_touch in E. destruct (d_st (doc s)); inversion E; subst; cbn; lia.
     + unfold legacy_write in E. destruct (d_st (doc s)); inversion E; subst; cbn; lia.
+    + unfold foreign_write in E. destruct (d_st (doc s)); [destruct (foreign_ok _ _)| |]; inversion E; subst; cbn; lia.
     + inversion E; subst. lia.
 Qed.
 
